@@ -30,7 +30,7 @@ ASSUMPTIONS = ["'between' is judged on record ordinals of the sorted file (offse
 def budget(tier):
     if tier == "quick":
         return {"examples": 300, "shards": 2}
-    return {"examples": 2000, "shards": 16}
+    return {"examples": 5000, "shards": 16}
 
 
 def strategy(tier):
